@@ -176,8 +176,14 @@ SUBMODULES = [
 ]
 # noinspection PyDictCreation
 FUNCTIONS = {}
-FUNCTIONS['ARRAY'] = lambda *args: np.asarray(args, object).view(Array)
-FUNCTIONS['ARRAYROW'] = lambda *args: np.asarray(args, object).view(Array)
+
+
+def _xarray(*args):
+    # Signed constants (e.g. `{1,-2}`) arrive as 0-dimensional arrays.
+    return np.asarray(tuple(map(convert_noshp, args)), object).view(Array)
+
+
+FUNCTIONS['ARRAY'] = FUNCTIONS['ARRAYROW'] = _xarray
 
 
 def get_error(*vals):
